@@ -300,7 +300,7 @@ func guardClass(l string) string {
 	return ""
 }
 
-var notKindRe = regexp.MustCompile(`^-\(\$0\.(cur|peek\d?)Token\.Type == "([^"]*)"\)$`)
+var notKindRe = regexp.MustCompile(`^-\((?:mu\(b\d+,)?\$0\.(cur|peek\d?)Token\)?\.Type == "([^"]*)"\)$`)
 
 // kindsSubset: every kind named in a is named in b.
 func kindsSubset(a, b string) bool {
